@@ -29,7 +29,8 @@ def to_scenario(sid, hist, extra=None):
             for r in rooms:
                 steps.append({"op": "pull", "p": st["p"], "q": st["q"], "room": r})
             continue
-        if st["op"] == "put":
+        if st["op"] in ("put", "move"):
+            # (a mutation that only names another room changes nothing: a move also writes a field)
             st["text"] = "t%d" % k
         steps.append(st)
     sc = {"sid": sid, "peers": peers, "users": {"p1": "u1", "p2": "u2", "p3": "u3"}, "steps": steps, "hist": hist, "defs": True}
@@ -45,7 +46,7 @@ def gen(ctx, depth, num, name):
 
 def focus(ctx, limit):
     """exhaustive product (room rights x author x caller x operation shape x definition change before the operation), one scenario per
-    initial state of Gen_Focus; with a limit, a sample that keeps every (operation, change) pair represented"""
+    initial state of Gen_Focus; with a limit, a sample that keeps every (operation, change, same author, rights present) class represented"""
     hs = ctx.generate(D, "Gen_Focus", "SPECIFICATION Spec\nINVARIANT Emit\nCHECK_DEADLOCK FALSE\n", "focus", workers=1, timeout=600)
     if limit is None or len(hs) <= limit:
         return hs
@@ -54,10 +55,15 @@ def focus(ctx, limit):
     strata = {}
     for h in hs:
         upd = [o for o in h if o["op"] == "roomupd"]
-        key = (h[-1]["op"], h[-1].get("row"), (upd[0]["room"], upd[0]["what"], upd[0]["self"], upd[0]["enabled"]) if upd else None)
+        puts = [o for o in h if o["op"] == "put"]
+        key = (h[-1]["op"], h[-1].get("row"), (upd[0]["room"], upd[0]["what"], upd[0]["self"], upd[0]["enabled"]) if upd else None,
+               puts[0]["p"] == h[-1]["p"], bool(h[0]["groups"][0]["rights"]), bool(h[1]["groups"][0]["rights"]))
         strata.setdefault(key, []).append(h)
-    per = max(1, limit // len(strata))
     out = []
     for key in sorted(strata, key=str):
-        out += rnd.sample(strata[key], min(per, len(strata[key])))
+        # a move is decided by two rooms: more samples where a definition changed before it
+        want = 3 if key[0] == "move" and key[2] is not None else 1
+        out += rnd.sample(strata[key], min(want, len(strata[key])))
+    if len(out) > limit:
+        out = rnd.sample(out, limit)
     return out
